@@ -18,6 +18,12 @@ def c04(tier):
     def relevant(mm, sess, runs):
         return mm['kind'] in ('stackbound', 'taildepth', 'tailvalue', 'conformance')
 
+    import vmt
+    vcov = {}
+
+    def steps_check(verdict, sessions, wd):
+        vcov.update(vmt.run(verdict, wd, [('tail', 25 if q else 1200)], vlib.seed()))
+
     def extra(sessions, ends):
         ctx = {}
         bigruns = 0
@@ -33,7 +39,7 @@ def c04(tier):
                     if 'tail' in b:
                         bigruns += 1
                         maxsp = max(maxsp, b['tail'].get('maxsp', 0))
-        return {'tail_contexts_exercised': ctx, 'implementation_runs_at_n_1000_and_100000': bigruns,
+        return {'instruction_traces': vcov, 'tail_contexts_exercised': ctx, 'implementation_runs_at_n_1000_and_100000': bigruns,
                 'largest_stack_depth_of_a_tail_loop_at_large_n': maxsp,
                 'iteration_counts': {'specification_and_implementation': [10, 100], 'implementation_only': [1000, 100000]},
                 'exhaustive': False}
@@ -53,6 +59,6 @@ def c04(tier):
             'letrec, named let, begin, lambda body, immediate lambda, internal define, apply, call/cc, eval) or a '
             'composition of 2-3 contexts; run at n=10,100 by specification and implementation and at n=1000,100000 '
             'by the implementation with the non-tail twin as value oracle',
-            extra_cov=extra)
+            extra_cov=extra, extra_check=steps_check)
     finally:
         cek.validate = orig
